@@ -61,6 +61,7 @@ CFG = {
         "Swat4.C06.facts_rest_recovery",
         "Swat4.C06.facts_browser_read_buffer",
         "Swat4.C06.facts_udp_read_buffer",
+        "Swat4.C06.facts_udp_buffer_is_model",
         "Swat4.C06.facts_partial_ops_browser",
     ],
     # proved in the Lean files and used by other proofs, but NOT audited as property theorems: each is a
